@@ -341,6 +341,16 @@ func (m *modelSession) stackDesc(hdr string, ref int64, depth int) (*StackDesc, 
 			fields[f] = app("select", c, cfg)
 		}
 	}
+	// small-model preferences: no mutex, no push policy, LIFO, no capacity, only defined option bits
+	for f, want := range map[string]string{"mtx": "0", "ppf": "0", "ord": "false", "cap": "0"} {
+		if w, ok := fields[f]; ok {
+			m.prefer(app("=", w, want))
+		}
+	}
+	if w, ok := fields["opt"]; ok {
+		m.prefer(fmt.Sprintf("(= (bvand %s #xfc00) #x0000)", w))
+		m.prefer(fmt.Sprintf("(= (bvand %s #x0180) #x0000)", w))
+	}
 	var wants []string
 	for _, w := range fields {
 		wants = append(wants, w)
@@ -703,6 +713,22 @@ func (e *Engine) concretiseOpt(res *FuncResult, g *Goal, o runOpts, qo qopt) (*W
 			n, _ := smtBV(m.vals[term])
 			a.Lit = fmt.Sprintf("%s(%d)", tk, n)
 		case sv.T.Sort == SVal:
+			if qo.Shape != "" {
+				sh := strings.ReplaceAll(qo.Shape, "%s", term)
+				okShape := true
+				for _, c := range []string{"Cell_stack", "Mem_Val", "F_nodeConfig_typ", "F_nodeConfig_opt", "F_nodeConfig_sym"} {
+					if strings.Contains(sh, "{"+c+"}") {
+						ent := m.entry(c)
+						if ent == "" {
+							okShape = false
+						}
+						sh = strings.ReplaceAll(sh, "{"+c+"}", ent)
+					}
+				}
+				if okShape {
+					m.prefer(sh)
+				}
+			}
 			vd, ok := m.valDesc(term, 1)
 			if !ok {
 				dbg()
